@@ -91,16 +91,25 @@ Theorem C05_link_crossing :
 Proof. intros. reflexivity. Qed.
 Print Assumptions C05_link_crossing.
 
+(* the tree has either the interpolated latitude as it is (before the FC04e repair) or the clamped one *)
 Theorem C05_link_crossing_lat :
-  forall sg (lat0 lon0 lat1 lon1 : R),
-    @x_crossing_lat RNum (sg =? -1)%Z lat0 lon0 lat1 lon1 = @crossing_lat RNum true sg (lat0, lon0) (lat1, lon1).
+  (forall sg (lat0 lon0 lat1 lon1 : R),
+    @x_crossing_lat RNum (sg =? -1)%Z lat0 lon0 lat1 lon1 = @crossing_lat RNum true false sg (lat0, lon0) (lat1, lon1)) \/
+  (forall sg (lat0 lon0 lat1 lon1 : R),
+    @x_crossing_lat RNum (sg =? -1)%Z lat0 lon0 lat1 lon1 = @crossing_lat RNum true true sg (lat0, lon0) (lat1, lon1)).
 Proof.
-  intros. unfold x_crossing_lat, crossing_lat, two. xr. lit0.
-  destruct (sg =? -1)%Z; cbv zeta.
-  - assert (E : Reqb (- (1)) (- (1)) = true) by (apply Reqb_true; reflexivity). rewrite !E.
-    replace (1 + 1) with 2 by lra. reflexivity.
-  - assert (E : Reqb 1 (- (1)) = false) by (apply Reqb_false; lra). rewrite !E.
-    replace (1 + 1) with 2 by lra. reflexivity.
+  first [ left; intros; unfold x_crossing_lat, crossing_lat, two; xr; lit0;
+          destruct (sg =? -1)%Z; cbv zeta;
+          [ assert (E : Reqb (- (1)) (- (1)) = true) by (apply Reqb_true; reflexivity); rewrite !E;
+            replace (1 + 1) with 2 by lra; reflexivity
+          | assert (E : Reqb 1 (- (1)) = false) by (apply Reqb_false; lra); rewrite !E;
+            replace (1 + 1) with 2 by lra; reflexivity ]
+        | right; intros; unfold x_crossing_lat, crossing_lat, clamp_between, two; xr; lit0;
+          destruct (sg =? -1)%Z; cbv zeta;
+          [ assert (E : Reqb (- (1)) (- (1)) = true) by (apply Reqb_true; reflexivity); rewrite !E;
+            replace (1 + 1) with 2 by lra; reflexivity
+          | assert (E : Reqb 1 (- (1)) = false) by (apply Reqb_false; lra); rewrite !E;
+            replace (1 + 1) with 2 by lra; reflexivity ] ].
 Qed.
 Print Assumptions C05_link_crossing_lat.
 
